@@ -246,7 +246,7 @@ PROPS = {
         explanation="eligibility postcondition of route_request + correlation contracts.",
     ),
     "C13": dict(
-        specs=["packer", "avp", "avp_types", "avp_grouped", "base", "node_model", "peer", "helpers", "c20", "family", "node", "c13", "c19", "c06"],
+        specs=["packer", "avp", "avp_types", "avp_grouped", "base", "node_model", "peer", "helpers", "c20", "family", "node", "c13", "c19", "c06", "c15", "c18"],
         ground=[ground.c13_event_ownership], replay=replay.generic,
         trusted_base=["socket objects: close()/fileno()/setsockopt() models"],
         assumptions=COMMON_ASSUME + [
